@@ -513,7 +513,7 @@ inline void runDepth(Ctx& C) {
             sc = fam.msgpack ? scanMsgPack(text) : scanJson(text);
             if (d <= 300) selfCheck(C, key, fam.msgpack, text, sc);
             if (fs.kind == 1) {
-              DeserializationError fe = deserializeJson(fdoc, fs.json);
+              DeserializationError fe = deserializeJson(fdoc, fs.json, DeserializationOption::NestingLimit(20));  // independent of the build's default limit
               if (fe) C.fail("harness", std::string("cannot build the filter: ") + fe.c_str());
             }
           }
